@@ -18,7 +18,10 @@ Families (each case is regenerated from its own seed, so every case replays alon
   wc-key      key envelopes of every class through to_json / from_json (validate_type on / off, foreign class) and
               save / load in a temporary directory; to_non_extended, hash, ExtendedSigningKey.to_verification_key
   wc-mal      damaged encodings: both sides must agree on ok / DeserializeException / other exception
-  wc-cx       the counterexamples of the `_counterexample` theorems, replayed on the implementation
+  wc-builder  `builder.build_and_sign([...])` (vlib/scenario.py, simple scenarios of vlib/bgen.py) with payment / stake /
+              extended signing keys: `Transaction.from_cbor(tx.to_cbor()) == tx`, every witness holds the plain key
+  wc-cx       the witnesses of the repaired finding F1 as ordinary round-trip cases, and the counterexamples of the
+              `_counterexample` theorems, replayed on the implementation
 """
 from __future__ import annotations
 
@@ -100,14 +103,17 @@ def check_vkw(ctx, case):
     ctx.count(f"wc-vkw:class:{s['key']['cls']}")
     ctx.count(f"wc-vkw:payload:{len(s['key']['payload'])}")
     ctx.count("wc-vkw:sig:" + (str(len(s["sig"])) if isinstance(s["sig"], bytes) else type(s["sig"]).__name__))
-    # ---- __post_init__: an ExtendedVerificationKey instance is cut to 32 bytes and becomes a plain VerificationKey;
-    #      every other key is kept (oracle: the class of the argument and slicing)
-    if isinstance(key, K.ExtendedVerificationKey):
-        if type(w.vkey) is not K.VerificationKey or bytes(w.vkey.payload) != s["key"]["payload"][:32]:
-            ctx.violation("VerificationKeyWitness: an extended verification key is not replaced by its first 32 bytes", desc,
-                          s["key"]["payload"][:32].hex(), G.dump_key(w.vkey))
+    # ---- __post_init__: an ExtendedVerificationKey instance is cut to 32 bytes, every other VerificationKey instance keeps
+    #      its payload, and both become the plain VerificationKey with the default envelope (what decoding returns);
+    #      anything else is kept (oracle: the class of the argument and slicing)
+    if isinstance(key, (K.ExtendedVerificationKey, K.VerificationKey)):
+        want = s["key"]["payload"][:32] if isinstance(key, K.ExtendedVerificationKey) else s["key"]["payload"]
+        exp_key = {"cls": "VerificationKey", "payload": want.hex(), "type": "", "desc": ""}
+        if G.dump_key(w.vkey) != exp_key:
+            ctx.violation("VerificationKeyWitness: the verification key is not reduced to the plain key "
+                          "(first 32 bytes of an extended key, the payload otherwise; default envelope)", desc, exp_key, G.dump_key(w.vkey))
     elif G.dump_key(w.vkey) != G.dump_key(key):
-        ctx.violation("VerificationKeyWitness: a key that is not an ExtendedVerificationKey was replaced", desc,
+        ctx.violation("VerificationKeyWitness: a key that is not a verification key was replaced", desc,
                       G.dump_key(key), G.dump_key(w.vkey))
     r = model(ctx, {"op": "wc.vkw.mk", "vkey": G.dump_key(key), "sig": G.dump_prim(s["sig"])})
     b, e = attempt(lambda: w.to_cbor())
@@ -144,13 +150,12 @@ def check_vkw(ctx, case):
         if b2 != b:
             ctx.violation("VerificationKeyWitness: re-encoding the decoded witness gives different bytes", desc, b.hex(),
                           b2.hex() if b2 else cls_of(e2))
-        default = G.vkw_default_envelope(s)
-        ctx.count("wc-vkw:" + ("default-envelope" if default else "typed-key(outside vkw_roundtrip_partial)"))
-        if default and not (y == w):
-            # C01.vkw_roundtrip_partial: with the default envelope `==` survives
+        # C01.vkw_roundtrip: every serializable constructed witness is == its round trip, whatever key it was built from
+        ctx.count("wc-vkw:roundtrip-eq:" + ("typed-or-role-key" if (s["key"]["type"] or G.KEY_BY_NAME[s["key"]["cls"]].KEY_TYPE) else "plain-key"))
+        if not (y == w) or not (w == y):
             ctx.violation("VerificationKeyWitness: decode(encode(w)) != w", desc, G.dump_vkw(w), G.dump_vkw(y))
-        if not default and r is not None and r[0] == "ok" and r[1]["pyeq"] != bool(y == w):
-            ctx.diff("wc.vkw.pyeq", desc, r[1]["pyeq"], bool(y == w))
+        if r is not None and r[0] == "ok" and r[1]["pyeq"] is not True:
+            ctx.diff("wc.vkw.pyeq", desc, r[1]["pyeq"], True)
         if r is not None and r[0] == "ok" and r[1]["decoded"] != G.dump_vkw(y):
             ctx.diff("wc.vkw.decoded", desc, r[1]["decoded"], G.dump_vkw(y))
     compare_decoded(ctx, "wc.vkw.dec", desc, b.hex(), y, err, G.dump_vkw, "w")
@@ -207,10 +212,6 @@ def elems_distinct_on_wire(x):
     witnesses that differ in the type / description of their key are different elements with the same encoding)"""
     ws = x.vkey_witnesses or []
     return len({(bytes(w.vkey.payload), repr(w.signature)) for w in ws}) == len(ws)
-
-
-def all_default_envelopes(s):
-    return all(G.vkw_default_envelope(e[0]) for e in s.get("vkeys", {"elems": []})["elems"])
 
 
 def has_untagged_redeemer(s):
@@ -331,19 +332,17 @@ def check_ws(ctx, case):
         distinct = elems_distinct_on_wire(x)
         reenc = b2, e2 = attempt(lambda: y.to_cbor())
         if distinct:
-            # C01.ws_reencode_partial (constructed => tagged; elements written differently)
+            # C01.ws_reencode_constructed
             if b2 != b:
                 ctx.violation("TransactionWitnessSet: re-encoding the decoded witness set gives different bytes", desc, b.hex(),
                               b2.hex() if b2 else cls_of(e2))
         else:
-            ctx.count("wc-ws:elements-written-alike(outside WSDistinct)")
-            ctx.skipped += 1
-        if distinct and all_default_envelopes(s):
-            eq, ee = attempt(lambda: y == x)
-            if not eq:
-                ctx.violation("TransactionWitnessSet: decode(encode(x)) != x", desc, G.dump_ws(x), G.dump_ws(y))
-        else:
-            ctx.count("wc-ws:typed-keys(outside ==)")
+            # cannot happen any more for constructed objects (witnesses that are written alike are ONE element of the set)
+            ctx.diff("wc.ws.same-element", desc, "elements of the vkey-witness set are written differently", "two are written alike")
+        # C01.ws_roundtrip_constructed: a constructed witness set is == its round trip, vkey witnesses included
+        eq, ee = attempt(lambda: (y == x) and (x == y))
+        if not eq:
+            ctx.violation("TransactionWitnessSet: decode(encode(x)) != x", desc, G.dump_ws(x), G.dump_ws(y))
         if m is not None and m["decoded"] != G.dump_ws(y):
             ctx.diff("wc.ws.decoded", desc, m["decoded"], G.dump_ws(y))
     compare_decoded(ctx, "wc.ws.dec", desc, b.hex(), y, err, G.dump_ws, "ws", reenc=reenc)
@@ -657,12 +656,17 @@ def check_mal(ctx, case):
 def check_cx(ctx, case):
     """the witnesses of the `_counterexample` theorems exist on the implementation (a disappearance is a change of the
     modelled behaviour: reported as a model / implementation difference)"""
-    # vkw_roundtrip_counterexample: a witness built from a PaymentVerificationKey is not == its round trip
-    w = W.VerificationKeyWitness(K.PaymentVerificationKey(bytes([1]) * 32), bytes([2]) * 64)
-    y = W.VerificationKeyWitness.from_cbor(w.to_cbor())
-    ctx.count("wc-cx:vkw-typed-key:" + ("unequal" if not (y == w) else "equal"))
-    if y == w:
-        ctx.diff("wc.cx.vkw_roundtrip_counterexample", {**case}, "decode(encode(w)) != w", "equal")
+    # the witnesses of the repaired finding (F1): built from a PaymentVerificationKey, and from what
+    # `signing_key.to_verification_key()` returns (TransactionBuilder.build_and_sign) — ordinary round-trip cases now
+    sk = K.PaymentSigningKey(bytes(range(32)))
+    for name, vk in (("PaymentVerificationKey", K.PaymentVerificationKey(bytes([1]) * 32)), ("to_verification_key", sk.to_verification_key()),
+                     ("from_signing_key", K.PaymentVerificationKey.from_signing_key(sk)), ("StakePoolVerificationKey", K.StakePoolVerificationKey(bytes([3]) * 32))):
+        w = W.VerificationKeyWitness(vk, bytes([2]) * 64)
+        y, err = attempt(lambda: W.VerificationKeyWitness.from_cbor(w.to_cbor()))
+        ctx.count(f"wc-cx:vkw:{name}:" + ("equal" if err is None and y == w else "unequal"))
+        if err is not None or not (y == w):
+            ctx.violation(f"VerificationKeyWitness built from {name}: decode(encode(w)) != w", {**case, "key": G.dump_key(vk)},
+                          G.dump_vkw(w), cls_of(err) if err else G.dump_vkw(y))
     # ws_reencode_counterexample: an untagged vkey-witness array is written back with the tag
     tb = R.enc(R.Map([(0, [[bytes([1]) * 32, bytes([2]) * 64]])]))
     ws = W.TransactionWitnessSet.from_cbor(tb)
@@ -680,11 +684,64 @@ def check_cx(ctx, case):
     ctx.case(case)
 
 
+# ------------------------------------------------------------------------------------------------ through the builder
+SIGNERS = [["k0"], ["x1"], ["k0", "x1"], ["k0", "s1"], ["s1", "x2"], ["k0", "k1", "x1", "s1", "x2"]]
+
+
+def check_builder(ctx, case):
+    """`tx = builder.build_and_sign([...])` with payment / stake / extended keys: `Transaction.from_cbor(tx.to_cbor()) == tx`"""
+    from vlib import bgen as B
+    from vlib import scenario as S
+    from pycardano import Transaction
+    rng = random.Random(case["seed"])
+    sc = B.gen_value_scenario(rng, plain=True)
+    sc["sign"] = SIGNERS[case["signers"]]
+    sc["force_skeys"] = True
+    run = S.run(sc, sign=True)
+    if run.tx is None:
+        ctx.count("wc-builder:not-built:" + str(run.error))
+        return
+    tx = run.tx
+    ws = tx.transaction_witness_set
+    desc = {**case, "sign": sc["sign"]}
+    ctx.count(f"wc-builder:signers:{'+'.join(sorted({l[0] for l in sc['sign']}))}")
+    if len(ws.vkey_witnesses or []) != len(sc["sign"]):
+        ctx.violation("build_and_sign(force_skeys=True): not one vkey witness per signing key", desc, len(sc["sign"]), len(ws.vkey_witnesses or []))
+    b, e = attempt(lambda: tx.to_cbor())
+    if e is not None:
+        ctx.violation(f"the signed transaction cannot be serialized ({type(e).__name__})", desc, "bytes", cls_of(e))
+        return
+    desc["hex"] = b.hex()
+    y, err = attempt(lambda: Transaction.from_cbor(b))
+    if err is not None:
+        ctx.violation(f"the signed transaction cannot be decoded ({type(err).__name__}: {str(err)[:100]})", desc, "a transaction", classify(err))
+        return
+    if not (y.transaction_witness_set == ws):
+        ctx.violation("build_and_sign: the witness set of the signed transaction != its round trip", desc, G.dump_ws(ws),
+                      G.dump_ws(y.transaction_witness_set))
+    elif not (y == tx):
+        ctx.violation("build_and_sign: Transaction.from_cbor(tx.to_cbor()) != tx (outside the witness set)", desc, "equal", "unequal")
+    if y.to_cbor() != b:
+        ctx.violation("build_and_sign: re-encoding the decoded transaction gives different bytes", desc, b.hex(), y.to_cbor().hex())
+    # every witness holds the plain key; the model agrees on the witness set
+    for w in ws.vkey_witnesses or []:
+        if type(w.vkey) is not K.VerificationKey or w.vkey.key_type != "" or len(w.vkey.payload) != 32:
+            ctx.violation("build_and_sign: a vkey witness does not hold the plain 32-byte verification key", desc, "plain key", G.dump_key(w.vkey))
+    r = model(ctx, {"op": "wc.ws.enc", "a": G.dump_ws(ws)})
+    if r is not None and r[0] == "ok":
+        m = r[1]
+        if m["constructed"] != G.dump_ws(ws) or not m["valid"] or m["hex"] != ws.to_cbor().hex():
+            ctx.diff("wc.ws.enc(builder)", desc, m["hex"], ws.to_cbor().hex())
+        elif m["decoded"] != G.dump_ws(y.transaction_witness_set):
+            ctx.diff("wc.ws.decoded(builder)", desc, m["decoded"], G.dump_ws(y.transaction_witness_set))
+    ctx.case(case)
+
+
 # ------------------------------------------------------------------------------------------------ entry points
 def dispatch(ctx, case):
     k = case["kind"]
     {"wc-vkw": check_vkw, "wc-redeemer": check_redeemer, "wc-ws": check_ws, "wc-ref": check_ref_decode, "wc-key": check_key,
-     "wc-key-mal": check_key_mal, "wc-mal": check_mal, "wc-cx": check_cx}[k](ctx, case)
+     "wc-key-mal": check_key_mal, "wc-mal": check_mal, "wc-cx": check_cx, "wc-builder": check_builder}[k](ctx, case)
 
 
 def run_ext(ctx):
@@ -706,6 +763,8 @@ def run_ext(ctx):
         dispatch(ctx, {**base, "kind": "wc-ref", "seed": f"{ctx.seed}/wcf{i}"})
     for i in range(ctx.budget(75, 600)):
         dispatch(ctx, {**base, "kind": "wc-key", "seed": f"{ctx.seed}/wck{i}", "cls": G.KEY_CLASSES[i % len(G.KEY_CLASSES)].__name__})
+    for i in range(ctx.budget(18, 300)):
+        dispatch(ctx, {**base, "kind": "wc-builder", "seed": f"{ctx.seed}/wcb{i}", "signers": i % len(SIGNERS)})
     for i, d in enumerate(ENVELOPE_DAMAGE):
         dispatch(ctx, {**base, "kind": "wc-key-mal", "seed": f"{ctx.seed}/wckm{i}", "damage": d})
     for fam, table in (("vkw", VKW_DAMAGE), ("redeemer", REDEEMER_DAMAGE), ("redeemers", REDEEMERS_DAMAGE), ("ws", WS_DAMAGE)):
@@ -714,5 +773,5 @@ def run_ext(ctx):
 
 
 def replay_ext(ctx, case):
-    c = {k: v for k, v in case.items() if k in ("ext", "kind", "seed", "mask", "big", "cls", "damage", "family")}
+    c = {k: v for k, v in case.items() if k in ("ext", "kind", "seed", "mask", "big", "cls", "damage", "family", "signers")}
     dispatch(ctx, c)
